@@ -6,6 +6,8 @@ From Verif Require Import lib.Wire c03.Int64 c03.Model c03.Spec c03.Witness
      c03.Proofs_OpsMem c03.Proofs_Hist c03.Proofs_Mon c03.Proofs_Link2 c03.Proofs_Transfer c03.Proofs_OpsRepar
      c03.Proofs_SetPeer c03.Proofs_Hist2 c03.Proofs_Mon2 c03.Proofs_Keys c03.Proofs_Refs c03.Proofs_RefInv c03.Proofs_GC
      c03.Proofs_Prio c03.Proofs_Cap c03.Proofs_CapInv c03.Proofs_Cap2 c03.Proofs_Just c03.Proofs_Just2 c03.Proofs_Ans c03.Proofs_Ans2 c03.Proofs_Full.
+(* the concurrent development is referred to by qualified names (Conc.run ...): it reuses names of the sequential one *)
+From Verif Require c03.Conc c03.Proofs_Conc c03.Witness_Conc.
 Import ListNotations.
 Local Open Scope Z_scope.
 
@@ -364,4 +366,127 @@ Proof. vm_compute. reflexivity. Qed.
 
 Example monitor_rejects_unjustified_refusal :
   mon_run base_cfg astate0 [] 0 [(OReserve System 10 255, mkObs 1 0 [])] <> [].
+Proof. vm_compute. discriminate. Qed.
+
+(* ======================================================================================
+   CONCURRENT EXECUTIONS (Conc.v): any number of holders (connections / streams) over an
+   arbitrary scope graph, each running operations whose atomic steps are the single-lock
+   sections of scope.go / rcmgr.go (one check-and-add or one release on ONE scope), under
+   EVERY schedule.  [Conc.run lim (Conc.init_cs hs) sched = Some st]: st is reached by the
+   schedule without an int64 wrap (the no_overflow hypothesis of the sequential theorems).
+   ====================================================================================== *)
+
+(* (1) at every reachable state the usage of every scope is the sum of what the holders have
+   charged to it so far, where an operation in flight counts on exactly the prefix of scopes
+   it has charged and not yet undone / the suffix it has not yet released ([Conc.held] =
+   committed part [Conc.base] + in-flight part), and each holder's share lies between its
+   committed part and committed + everything the operation in flight may charge *)
+Theorem c03c_usage_is_sum_inflight : forall lim hs sched st,
+  (forall s, lim_ok (lim s)) -> forallb Conc.fresh hs = true ->
+  Conc.run lim (Conc.init_cs hs) sched = Some st ->
+  forall s, Conc.c_use st s = Conc.sum_held (Conc.c_hs st) s /\
+            forall h, In h (Conc.c_hs st) ->
+              nonneg (Conc.held h s) /\ stat_le (Conc.base h s) (Conc.held h s) /\
+              stat_le (Conc.held h s) (stat_add (Conc.base h s) (Conc.inflight_max h s)).
+Proof. exact Proofs_Conc.conc_usage_sum. Qed.
+Print Assumptions c03c_usage_is_sum_inflight.
+
+(* (2) no scope is below zero or above its limit at any instant, for every limit table *)
+Theorem c03c_within_limits_always : forall lim hs sched st,
+  (forall s, lim_ok (lim s)) -> forallb Conc.fresh hs = true ->
+  Conc.run lim (Conc.init_cs hs) sched = Some st ->
+  forall s, nonneg (Conc.c_use st s) /\ fits (lim s) (Conc.c_use st s).
+Proof. exact Proofs_Conc.conc_within. Qed.
+Print Assumptions c03c_within_limits_always.
+
+(* (3) at quiescence (no operation in flight) the usage is exactly the sum over the holders
+   charged to the scope - the formula of the sequential theorem *)
+Theorem c03c_quiescent_exact : forall lim hs sched st,
+  (forall s, lim_ok (lim s)) -> forallb Conc.fresh hs = true ->
+  Conc.run lim (Conc.init_cs hs) sched = Some st -> Conc.quiescent st = true ->
+  forall s, Conc.c_use st s = Conc.quiet_usage (Conc.holders_of st) s.
+Proof. exact Proofs_Conc.conc_quiet. Qed.
+Print Assumptions c03c_quiescent_exact.
+
+(* (4) a refused operation (reservation or re-parenting) leaves no residue: while its charged
+   prefix is being taken back the holder's own vector and edge list are those it had when the
+   operation began, what it has charged beyond them is exactly the part of the prefix not yet
+   taken back, and when the call returns (todo = []) nothing *)
+Theorem c03c_refused_no_residue : forall lim hs sched st h todo k o e,
+  (forall s, lim_ok (lim s)) -> forallb Conc.fresh hs = true ->
+  Conc.run lim (Conc.init_cs hs) sched = Some st -> In h (Conc.c_hs st) ->
+  Conc.h_ph h = Conc.Drop todo k (Some (o, e)) ->
+  Conc.h_own h = o /\ Conc.h_edges h = e /\
+  forall s, Conc.held h s =
+            stat_add (stat_scale (Conc.cnt s (Conc.h_self h :: e)) o) (stat_scale (Conc.cnt s todo) (Conc.cdelta k)).
+Proof. exact Proofs_Conc.refused_no_residue. Qed.
+Print Assumptions c03c_refused_no_residue.
+
+(* one atomic step of one holder, whatever the others are doing (the inductive step) *)
+Theorem c03c_step_invariant : forall lim st io st',
+  (forall s, lim_ok (lim s)) -> Proofs_Conc.cinv lim st -> Conc.gstep lim st io = Some st' -> Proofs_Conc.cinv lim st'.
+Proof. exact Proofs_Conc.gstep_inv. Qed.
+Print Assumptions c03c_step_invariant.
+
+(* THE monitor of concurrent runs (case kind 5: every mid-flight sample within [0, limit] and
+   between the sums of the per-holder lower and upper bounds; quiescent exactness) accepts every
+   trace of the concurrent model: samples taken between the segments of any schedule *)
+Theorem c03c_trace_holds : forall lim hs segs tail smp mid fin scopes,
+  (forall s, lim_ok (lim s)) -> forallb Conc.fresh hs = true ->
+  Conc.trace_samples lim (Conc.init_cs hs) segs = Some (smp, mid) ->
+  Conc.run lim mid tail = Some fin -> Conc.quiescent fin = true ->
+  Conc.mon_conc (Conc.model_case lim smp fin scopes) = [].
+Proof. exact Proofs_Conc.conc_monitor_accepts. Qed.
+Print Assumptions c03c_trace_holds.
+
+(* the sample clause is monotone in the bounds: the wider per-worker bounds the harness computes
+   for a sampling window are accepted whenever the instantaneous ones are *)
+Theorem c03c_sample_bounds_monotone : forall k a l obs parts parts',
+  Conc.mon_sample (Conc.mkSample k a l obs parts) = [] ->
+  stat_le (Conc.sum_over fst parts') (Conc.sum_over fst parts) ->
+  stat_le (Conc.sum_over snd parts) (Conc.sum_over snd parts') ->
+  Conc.mon_sample (Conc.mkSample k a l obs parts') = [].
+Proof. exact Proofs_Conc.mon_sample_weaken. Qed.
+Print Assumptions c03c_sample_bounds_monotone.
+
+(* non-vacuity: a reservation in flight is visible on the prefix it has charged (system reads
+   8 + 5 while the peer scope still reads 8), the peer scope refuses, the undo runs edge by edge,
+   and after the return nothing of the refused reservation is left *)
+Example conc_prefix_visible :
+  Witness_Conc.use_at Witness_Conc.ex_prefix 0%nat = Some [13; 0; 0; 0; 0; 0] /\
+  Witness_Conc.use_at Witness_Conc.ex_prefix 1%nat = Some [8; 0; 0; 0; 0; 0] /\
+  Witness_Conc.phase_at Witness_Conc.ex_refusal 1%nat =
+    Some (Conc.Drop [0%nat; 11%nat] (KMem 5 255) (Some (stat0, [0%nat; 1%nat]))) /\
+  Witness_Conc.use_at Witness_Conc.ex_returned 0%nat = Some [8; 0; 0; 0; 0; 0] /\
+  Witness_Conc.use_at Witness_Conc.ex_returned 11%nat = Some [0; 0; 0; 0; 0; 0] /\
+  Witness_Conc.phase_at Witness_Conc.ex_returned 1%nat = Some Conc.Idle.
+Proof. vm_compute. repeat split; reflexivity. Qed.
+
+(* the other interleaving: holder 1 reaches the peer scope first, holder 0 is the one refused *)
+Example conc_other_interleaving :
+  Witness_Conc.use_at Witness_Conc.ex_interleaved 0%nat = Some [5; 0; 0; 0; 0; 0] /\
+  Witness_Conc.use_at Witness_Conc.ex_interleaved 1%nat = Some [5; 0; 0; 0; 0; 0] /\
+  Witness_Conc.phase_at Witness_Conc.ex_interleaved 0%nat = Some Conc.Idle /\
+  Witness_Conc.phase_at Witness_Conc.ex_interleaved 1%nat = Some Conc.Idle.
+Proof. vm_compute. repeat split; reflexivity. Qed.
+
+Example conc_case_accepted : option_map Conc.mon_conc Witness_Conc.ex_case = Some [].
+Proof. vm_compute. reflexivity. Qed.
+
+(* the monitor rejects: a sample above the limit (non-atomic check), a sample above what the
+   holders can have charged (missing undo), a residue at quiescence *)
+Example conc_monitor_rejects_over_limit :
+  Conc.mon_sample (Conc.mkSample 6 0 (Witness_Conc.ex_lim 1) (mkStat 13 0 0 0 0 0)
+                     [(mkStat 8 0 0 0 0 0, mkStat 8 0 0 0 0 0); (stat0, mkStat 5 0 0 0 0 0)])
+  = [Conc.CL_CLIMIT; 6; 0; 13; 0; 0; 0; 0; 0].
+Proof. vm_compute. reflexivity. Qed.
+
+Example conc_monitor_rejects_unexplained_charge :
+  Conc.mon_sample (Conc.mkSample 0 0 (Witness_Conc.ex_lim 0) (mkStat 13 0 0 0 0 0)
+                     [(mkStat 8 0 0 0 0 0, mkStat 8 0 0 0 0 0); (stat0, stat0)]) <> [].
+Proof. vm_compute. discriminate. Qed.
+
+Example conc_monitor_rejects_residue :
+  Conc.mon_conc (Conc.mkCase [] [(10%nat, mkStat 8 0 0 0 0 0, [0%nat; 1%nat]); (11%nat, stat0, [0%nat; 1%nat])]
+                   [(0%nat, (0, 0), mkStat 13 0 0 0 0 0)]) <> [].
 Proof. vm_compute. discriminate. Qed.
